@@ -178,7 +178,7 @@ Definition oracle (i : input) (o : obs) : bool :=
 Definition input_wf (i : input) : bool :=
   match i with
   | IResolve _ _ ss => forallb valid_short ss
-  | IArchive _ _ => false      (* the archive reader does panic on corrupt bytes: see no_panic_archive_refuted *)
+  | IArchive _ _ => false      (* stated separately (no_panic_archive_open / _get / _iterate): the search needs 8-byte value bounds *)
   | IStore op => negb (op =? 2)   (* no model behind store-level cases: the input only echoes how the open ended *)
   | _ => true
   end.
